@@ -306,6 +306,15 @@ def histStep (kind : String) (code : UInt8) (render : GOpts → Int → String)
       let n ← unhex e
       pure { st with reg := .labs { l with labels := if i < l.labels.length then l.labels.set i n else l.labels } p }
     | .toks ts => pure { st with reg := .toks (canonToks kind (if i < ts.length then ts.set i e else ts)) }
+  | ["c", i] => do
+    -- label sets: toggle the ASCII letter case of name i in place
+    let i ← i.toNat?
+    match st.reg with
+    | .labs l p =>
+      let tog : UInt8 → UInt8 := fun b =>
+        if (65 ≤ b && b ≤ 90) || (97 ≤ b && b ≤ 122) then b ^^^ 32 else b
+      pure { st with reg := .labs { l with labels := if h : i < l.labels.length then l.labels.set i (l.labels[i].map tog) else l.labels } p }
+    | r => pure { st with reg := r }
   | "a" :: erest =>
     let e := ":".intercalate erest
     match st.reg with
